@@ -47,6 +47,9 @@ inductive Event
   | assumeVarr (b : Bool)
   | call (name : String)
   | mayFill
+  /-- an exception may leave the mutator here: a call of a helper (`site`) whose body can raise, or a NumPy
+      augmented assignment that can fail before it writes -/
+  | mayRaise (site : String)
   deriving DecidableEq, Repr
 
 abbrev Table := List (String × List (List Event))
@@ -406,6 +409,16 @@ def absPath : List Event → Abs → Abs
 def pathOK (es : List Event) : Bool :=
   (absPath es (Abs.start true)).clean && (absPath es (Abs.start false)).clean
 
+/-- exceptional exits: at every `mayRaise` point (whose site is not in the reviewed list `exempt`) nothing may be
+    stale — the mutator may stop there -/
+def exitsOK (exempt : List String) : List Event → Abs → Bool
+  | [], _ => true
+  | .mayRaise site :: es, a => (exempt.contains site || a.clean) && exitsOK exempt es a
+  | e :: es, a => exitsOK exempt es (absEvent e a)
+
+def pathExitsOK (exempt : List String) (es : List Event) : Bool :=
+  exitsOK exempt es (Abs.start true) && exitsOK exempt es (Abs.start false)
+
 def endsRet (es : List Event) : Bool := es.getLast? == some .ret
 
 /-- a validation failure inside an inlined helper AFTER the caller has already written (the exception leaves the
@@ -494,6 +507,22 @@ inductive Expands : List Seg → List Event → Prop
       Expands segs rest → Expands (⟨false, [es]⟩ :: segs) (es ++ rest)
   | loop {alts iters : List (List Event)} {rest : List Event} {segs : List Seg} :
       (∀ b ∈ iters, b ∈ alts) → Expands segs rest → Expands (⟨true, alts⟩ :: segs) (iters.flatten ++ rest)
+
+/-! ### exceptional exits of segmented paths -/
+
+def segExitsOK (ex : List String) (s : Seg) (a : Abs) : Bool :=
+  match s.isLoop with
+  | false => match s.alts with
+    | [es] => exitsOK ex es a
+    | _ => false
+  | true => s.alts.all fun es => exitsOK ex es (absSeg s a)
+
+def segsExitsOK (ex : List String) : List Seg → Abs → Bool
+  | [], _ => true
+  | s :: ss, a => segExitsOK ex s a && segsExitsOK ex ss (absSeg s a)
+
+def segsAllExitsOK (ex : List String) (segs : List Seg) : Bool :=
+  segsExitsOK ex segs (Abs.start true) && segsExitsOK ex segs (Abs.start false)
 
 /-! ### a shrunk object holds a reference to its original (known finding KF-C18-1) -/
 
